@@ -255,7 +255,30 @@ class Machine:
             self.ev(f"{name}.setup")  # (the main scenario's setup block ran at compile time)
         inst["gen"] = self.block(d["compose"], inst, name) if d.get("compose") is not None else None
         inst["has_compose"] = d.get("compose") is not None
+        # monitors instantiated by the setup block of a sub-scenario start with it
+        inst["monitors"] = [] if top else [(m, self._prime(self.behavior(m, "monitors"))) for m in d.get("monitors", ())]
         return inst
+
+    def run_sub_monitors(self, inst):
+        """Step 3 for a running sub-scenario: its own monitors, then those of its running
+        sub-scenarios; `terminate` stops the scenario which instantiated the monitor (only).
+        Returns True if some monitor executed `terminate simulation`."""
+        term = False
+        end_self = False
+        for m, g in inst.get("monitors", ()):
+            y = self._resume(g)
+            if y is None or y[0] == "act":
+                continue
+            if y[0] == "termsim":
+                term = True
+            elif y[0] == "terminate":
+                end_self = True
+        for sub in list(inst["subs"]):
+            if sub["running"]:
+                term |= self.run_sub_monitors(sub)
+        if end_self:
+            self.scn_stop(inst)
+        return term
 
     def scn_stop(self, inst):
         if not inst["running"]:
@@ -438,6 +461,10 @@ class Machine:
                         # scenarioComplete, implementation reports terminatedByMonitor
                         flag = (flag or set()) | {"scenarioComplete", "terminatedByMonitor"}
                         break
+                if main is not None:
+                    for sub in list(main["subs"]):
+                        if sub["running"] and self.run_sub_monitors(sub):
+                            flag = (flag or set()) | {"terminatedByMonitor"}
             # 4. termination checks
             if flag is not None:
                 return self._finish(flag, n_actions)
